@@ -79,7 +79,7 @@ pub fn gen_e(t: &mut Tape, sc: &Scope, ty: Ty, depth: usize) -> E {
     }
     let d = depth - 1;
     match ty {
-        Ty::N => match t.pick(21) {
+        Ty::N => match t.pick(23) {
             0 | 1 => leaf(t, sc, ty),
             2 | 3 | 4 => {
                 let op = [Op::Add, Op::Sub, Op::Mul, Op::Div, Op::Mod, Op::Pow, Op::Add, Op::Mul][t.pick(8)];
@@ -124,12 +124,24 @@ pub fn gen_e(t: &mut Tape, sc: &Scope, ty: Ty, depth: usize) -> E {
                 call(E::BuiltIn("convert".into()), vec![gen_e(t, sc, Ty::N, d), E::Str(from.into()), E::Str(to.into())])
             }
             19 => call(E::BuiltIn("sqrt".into()), vec![E::Neg(b(n(1.0)))]),
+            21 => {
+                // order-dependent observation on a sorted list of records (records have no order:
+                // a stable sort leaves them as written)
+                let sorted = call(E::BuiltIn("sort".into()), vec![E::List(vec![gen_e(t, sc, Ty::R, d), gen_e(t, sc, Ty::R, d), gen_e(t, sc, Ty::R, 0)])]);
+                bin(Op::Coalesce, E::Field(b(E::Index(b(sorted), b(n([0.0, 1.0, 2.0][t.pick(3)])))), "a".into()), n(0.0))
+            }
+            22 => {
+                // sort_by with function- or record-valued keys, observed through the first element
+                let key = if t.pick(2) == 0 { E::Rec(vec![RE::Pair("k".into(), id("w"))]) } else { E::Lambda(vec![P::Req("z".into())], b(id("w"))) };
+                let sorted = call(E::BuiltIn("sort_by".into()), vec![gen_e(t, sc, Ty::L, d), E::Lambda(vec![P::Req("w".into())], b(key))]);
+                bin(Op::Coalesce, E::Index(b(sorted), b(n(0.0))), n(0.0))
+            }
             _ => call(
                 E::BuiltIn("reduce".into()),
                 vec![gen_e(t, sc, Ty::L, d), E::Lambda(vec![P::Req("acc".into()), P::Req("it".into())], b(bin(Op::Add, id("acc"), id("it")))), n(0.0)],
             ),
         },
-        Ty::B => match t.pick(11) {
+        Ty::B => match t.pick(12) {
             0 => leaf(t, sc, ty),
             1 | 2 | 3 => {
                 let op = [Op::Lt, Op::Le, Op::Gt, Op::Ge, Op::Eq, Op::Ne, Op::DEq, Op::DLt][t.pick(8)];
@@ -151,6 +163,11 @@ pub fn gen_e(t: &mut Tape, sc: &Scope, ty: Ty, depth: usize) -> E {
             9 => {
                 let x = gen_e(t, sc, Ty::L, d);
                 call(E::BuiltIn("includes".into()), vec![E::List(vec![x.clone()]), x])
+            }
+            10 => {
+                // unchecked comparisons of values without an order
+                let ty2 = [Ty::R, Ty::F, Ty::R, Ty::L][t.pick(4)];
+                call(E::BuiltIn(["ugt", "ult", "ugte", "ulte"][t.pick(4)].into()), vec![gen_e(t, sc, ty2, d), gen_e(t, sc, ty2, d)])
             }
             _ => call(E::BuiltIn(["every", "some"][t.pick(2)].into()), vec![gen_e(t, sc, Ty::L, d), E::Lambda(vec![P::Req("q".into())], b(bin(Op::Gt, id("q"), gen_e(t, sc, Ty::N, 0))))]),
         },
